@@ -89,9 +89,36 @@ impl RebuilderStub {
                 (#[trigger] rb_out(self, buf@, start.ix(), end.ix())[i]).0.ix() < buf@.len() && rb_out(self, buf@, start.ix(), end.ix())[i].1.len() == buf@[rb_out(self, buf@, start.ix(), end.ix())[i].0.ix() as int].len(),
     { unimplemented!() }
 }
+/// A-db: the table's rebuild index (value -> subset of rows mentioning it) and the rebuilder's scan of one such subset
+#[verifier::external_body]
+#[verifier::reject_recursive_types(T)]
+pub struct Index<T> { _p: core::marker::PhantomData<T> }
+#[verifier::external_body]
+pub struct ColumnIndex { _p: core::marker::PhantomData<u8> }
+#[verifier::external_body]
+pub struct SubsetStub { _p: core::marker::PhantomData<u8> }
+#[verifier::external_body]
+pub struct WrappedRef { _p: core::marker::PhantomData<u8> }
+impl WrappedRef { pub uninterp spec fn rows(&self) -> Seq<Seq<Value>>; }
+impl Index<ColumnIndex> {
+    #[verifier::external_body]
+    pub fn get_subset(&self, v: &Value) -> (r: Option<&SubsetStub>) { unimplemented!() }
+}
+pub uninterp spec fn rs_out(r: &RebuilderStub, rows: Seq<Seq<Value>>, s: &SubsetStub) -> Seq<(RowId, Seq<Value>)>;
+impl RebuilderStub {
+    // A-db: &dyn Rebuilder::rebuild_subset appends (row id, rebuilt row) for the rows of the subset that change
+    // (Canonicalizer::rebuild_subset is proved in unit disp); every reported row belongs to the table
+    #[verifier::external_body]
+    pub fn rebuild_subset(&self, table: &WrappedRef, subset: &SubsetStub, out: &mut TaggedRowBuffer, exec_state: &mut ExecutionState)
+        ensures
+            final(out)@ == old(out)@ + rs_out(self, table.rows(), subset),
+            forall|i: int| 0 <= i < rs_out(self, table.rows(), subset).len() ==>
+                (#[trigger] rs_out(self, table.rows(), subset)[i]).0.ix() < table.rows().len() && rs_out(self, table.rows(), subset)[i].1.len() == table.rows()[rs_out(self, table.rows(), subset)[i].0.ix() as int].len(),
+    { unimplemented!() }
+}
 pub const STEP_SIZE: usize = 2048;   // the function-local constant of rebuild_nonincremental (any positive step is correct)
 
-//@ item core-relations/src/table/mod.rs struct SortedWritesTable only data n_keys n_columns sort_by
+//@ item core-relations/src/table/mod.rs struct SortedWritesTable only data n_keys n_columns sort_by rebuild_index
 impl SortedWritesTable {
     #[verifier::external_body]
     pub fn new_buffer(&self) -> (r: MutBuf) ensures r.log() == Seq::<Staged>::empty() { unimplemented!() }
@@ -215,6 +242,33 @@ pub open spec fn expected(t: SortedWritesTable, out: Seq<(RowId, Seq<Value>)>, t
                 let ghost out0 = scratch@;
 //@ at after-loop 0
                 proof { assert(write_buf.log() == expected(*self, out0, next_ts, out0.len())); }
+//@ end-fn
+//@ end-impl
+
+//@ impl core-relations/src/table/rebuild.rs impl SortedWritesTable
+//@ lift core-relations/src/table/rebuild.rs rebuild_incremental closure 2 as rebuild_incremental_one_id
+//@ header pub fn rebuild_incremental_one_id(&self, rebuilder: &RebuilderStub, wrapped: &WrappedRef, next_ts: Value, exec_state: &ExecutionState, id: &Value) -> (r: bool)
+//@ rewrite R-ITERPAIRMUT 0
+//@ rewrite R-MACRO insert_row
+//@ rewrite R-CLOSANN 0 &[Value] &[Value]
+//@ at sig
+        requires self.shape_ok(), wrapped.rows() == self.data@,
+//@ at loop 0 spec
+                        invariant
+                            self.shape_ok(), __j0 <= __n0, __n0 == __v0@.len(), __n0 == out0.len(),
+                            forall|i: int| __j0 <= i < __n0 ==> (#[trigger] __v0@[i]).0 == out0[i].0 && __v0@[i].1@ == out0[i].1,
+                            forall|i: int| 0 <= i < out0.len() ==> (#[trigger] out0[i]).0.ix() < self.data@.len() && out0[i].1.len() == self.n_columns,
+                            // one dirty id of the parallel incremental rebuild: exactly what its subset's scan calls for is staged
+                            mutation_buf.log() == expected(*self, out0, next_ts, __j0 as nat),
+                            changed == (__j0 > 0),
+                        decreases __n0 - __j0
+//@ at closure 0 spec
+                                requires x@.len() >= self.n_keys
+                                ensures r@ == x@.subrange(0, self.n_keys as int)
+//@ at before-loop 0
+                    let ghost out0 = scanned@;
+//@ at after-loop 0
+                    proof { assert(mutation_buf.log() == expected(*self, out0, next_ts, out0.len())); }
 //@ end-fn
 //@ end-impl
 
